@@ -28,6 +28,7 @@ import os
 import pickle
 import random
 import signal
+import sys
 import time
 import traceback
 import warnings
@@ -1237,6 +1238,7 @@ def check(rep, tier, seed, driver):
             else:
                 report(rep, case, p, driver, reported, do_shrink=(p["oracle"] != "model"))
     wide_seed_check(rep, rng)
+    cross_process_check(rep, rng)
     if SCAN.get("offending"):
         dynamic_kinds |= probe_for_static(rep, driver, reported)
     acc = rep.evaluations - rep.hist.get("rejected_by_library", 0)
@@ -1252,6 +1254,40 @@ def check(rep, tier, seed, driver):
         rep.violation("the inventory scan misclassifies its own self-test snippets: %s" % selftest["failed"][:3], {"kind": "harness", "selftest": selftest}, False,
                       {"kind": "rng-inventory-scan-failed"})
     rep.extra["harness_wall_s"] = round(time.time() - t_start, 1)
+
+
+def cross_process_check(rep, rng):
+    """the same seeded pipelines in two fresh interpreter processes with DIFFERENT string-hash salts (PYTHONHASHSEED) must give the same
+    digests: nothing may depend on hash() of a str, on set iteration order of strings, on id() ..."""
+    import subprocess
+    sd = str(rng.randrange(1 << 30))
+    outs = []
+    procs = [(salt, subprocess.Popen([sys.executable, os.path.join(os.path.dirname(os.path.abspath(__file__)), "c09_xproc.py"), sd],
+                                     env=dict(os.environ, PYTHONHASHSEED=salt), stdout=subprocess.PIPE, stderr=subprocess.PIPE, text=True))
+             for salt in ("0", "12345")]
+    for salt, pr in procs:
+        try:
+            so, se = pr.communicate(timeout=300)
+        except subprocess.TimeoutExpired:
+            for _, q in procs:
+                q.kill()
+            rep.count("xproc_timeout")
+            return
+        line = [l for l in so.splitlines() if l.startswith("XPROC ")]
+        if not line:
+            rep.violation("the cross-process helper produced no result (PYTHONHASHSEED=%s): %s" % (salt, se[-300:]),
+                          {"kind": "harness-crash", "stderr": se[-2000:]}, False, {"kind": "crash"})
+            return
+        outs.append(json.loads(line[0][6:]))
+    for a, b in zip(outs[0], outs[1]):
+        rep.count("xproc_pipelines")
+        if a["digest"] != b["digest"]:
+            rep.violation("the same seeded pipeline gives different results in two interpreter processes that differ only in PYTHONHASHSEED "
+                          "(0 / 12345): archive %s, first emitter %s" % (a["case"]["archive"]["kind"], emitter_label(a["case"]["emitters"][0])),
+                          {"kind": "property", "broken": "same seeds and same evaluations reproduce bit-identical results", "case": a["case"],
+                           "digests": [a["digest"], b["digest"]], "how": "PYTHONHASHSEED=0 and =12345: harness/c09_xproc.py <seed %s>" % sd}, True,
+                          {"kind": "seeded-run-not-reproducible", "across": "processes"})
+            return
 
 
 def wide_seed_check(rep, rng):
@@ -1314,6 +1350,7 @@ SELFTEST = [
     ("pycma without randn", "import numpy as np\nclass P:\n    def __init__(self, seed=None):\n        self._opts = {}\n        self._opts['seed'] = np.nan\n    def reset(self, x0):\n        import cma\n        self._es = cma.CMAEvolutionStrategy(x0, 1.0, self._opts)\n", 1, ["KThirdParty"]),
     ("reseeding in __setstate__", "import numpy as np\nclass A:\n    def __init__(self, seed=None):\n        self._rng = np.random.default_rng(seed)\n    def __setstate__(self, s):\n        self.__dict__.update(s)\n        self._rng = np.random.default_rng()\n    def f(self):\n        return self._rng.random()\n", 2, ["KDefaultRng", "use"]),
     ("os.urandom", "import os\ndef f():\n    return os.urandom(4)\n", 1, ["KUnknown"]),
+    ("salted hash", "import numpy as np\nclass A:\n    def __init__(self, seed=None):\n        self._rng = np.random.default_rng(seed)\n        self._key = hash('opt') & 0xFFFFFFFF\n    def f(self):\n        return self._rng.random()\n", 1, ["KUnknown"]),
     ("scipy.stats rvs", "import scipy.stats as st\ndef f():\n    return st.norm.rvs(size=3)\n", 1, ["KUnknown"]),
 ]
 
